@@ -42,13 +42,19 @@ func NewBinaryProtoFunc() erpc.ProtoFunc {
 		p.tProtocol = thrift.NewTHeaderProtocol(&BaseTTransport{
 			ReadWriteCounter: p.rwCounter,
 		})
+		p.rProtocol = thrift.NewTHeaderProtocol(&BaseTTransport{
+			ReadWriteCounter: p.rwCounter,
+		})
 		return p
 	}
 }
 
 type tBinaryProto struct {
-	rwCounter  *utils.ReadWriteCounter
+	rwCounter *utils.ReadWriteCounter
+	// tProtocol packs and rProtocol unpacks: a THeaderProtocol keeps per-message
+	// state, and Pack and Unpack run concurrently (each under its own lock).
 	tProtocol  *thrift.THeaderProtocol
+	rProtocol  *thrift.THeaderProtocol
 	packLock   sync.Mutex
 	unpackLock sync.Mutex
 	name       string
@@ -73,7 +79,7 @@ func (t *tBinaryProto) Pack(m erpc.Message) error {
 func (t *tBinaryProto) Unpack(m erpc.Message) error {
 	err := t.binaryUnpack(m)
 	if err != nil {
-		t.tProtocol.Transport().Close()
+		t.rProtocol.Transport().Close()
 	}
 	return err
 }
@@ -123,20 +129,20 @@ func (t *tBinaryProto) binaryUnpack(m erpc.Message) error {
 	defer t.unpackLock.Unlock()
 	t.rwCounter.ReadCounter.Zero()
 
-	err := readMessageBegin(t.tProtocol, m)
+	err := readMessageBegin(t.rProtocol, m)
 	if err != nil {
 		return err
 	}
 
-	bodyBytes, err := t.tProtocol.ReadBinary()
+	bodyBytes, err := t.rProtocol.ReadBinary()
 	if err != nil {
 		return err
 	}
-	if err = t.tProtocol.ReadMessageEnd(); err != nil {
+	if err = t.rProtocol.ReadMessageEnd(); err != nil {
 		return err
 	}
 
-	headers := t.tProtocol.GetReadHeaders()
+	headers := t.rProtocol.GetReadHeaders()
 	m.Status(true).DecodeQuery(goutil.StringToBytes(headers[HeaderStatus]))
 	m.Meta().Parse(headers[HeaderMeta])
 	if codecID := headers[HeaderBodyCodec]; codecID != "" {
